@@ -826,6 +826,14 @@ class Wild(Family):
             Doc('wd-strictattr-badvalue', D('', '').replace('<w:strict>', '<w:strict w:ga="x">'), 'fault:lexical'),
             Doc('wd-lax-unknown-plain', D('<unq>text</unq><unq2 a="1"/>')),
             Doc('wd-tail-nested', D('<o:x><o:y><o:z/></o:y></o:x>', tail=' <o:t1><o:d1><o:d2>t</o:d2></o:d1></o:t1>\n <o:t2/>\n')),
+            # children of the root admitted by its lax wildcard that have NO declaration: assessed laxly, so a declared
+            # descendant is validated, an xsi:type is honoured, xsi:nil meets the undeclared element's defaults
+            Doc('wd-tail-undeclared-known-bad', D(tail=' <o:t1><w:known>not-int</w:known></o:t1>\n <o:t2/>\n'), 'fault:lexical'),
+            Doc('wd-tail-undeclared-known-ok', D(tail=' <o:t1><w:known>7</w:known><o:d><w:known>8</w:known></o:d></o:t1>\n')),
+            Doc('wd-tail-undeclared-nil', D(tail=' <o:t1 xmlns:xsi="http://www.w3.org/2001/XMLSchema-instance" xsi:nil="true"/>\n'),
+                'fault:nil'),
+            Doc('wd-tail-undeclared-deep-bad', D(tail=' <o:t1/>\n <o:t2><o:d><w:known>x</w:known></o:d><w:known>9</w:known></o:t2>\n'),
+                'fault:lexical'),
         ]
 
 
